@@ -263,12 +263,19 @@ Definition flagged (name : list byte) : bool :=
 Definition need_pipes (name : list byte) : bool :=
   flagged name ||
   match name with b :: _ => numeric_first b && numeric_like (map lower name) | [] => false end.
+(* between bars (repo_fixes C03-5): | and \ get a backslash, control bytes other than tab, newline and return
+   are written \u00XX *)
+Definition pesc_byte (b : byte) : list byte :=
+  if (b =? 124)%N || (b =? 92)%N then [92%N; b]
+  else if (b <? 32)%N && negb ((b =? 9)%N || (b =? 10)%N || (b =? 13)%N) then [92; 117; 48; 48; hexd (b / 16); hexd (b mod 16)]%N
+  else [b].
+Definition pesc (bs : list byte) : list byte := concat (map pesc_byte bs).
 (* Symbol.Readably *)
 Definition symbol_text (c : pcfg) (name : list byte) : list byte :=
   match name with
   | [] => [124; 124]%N
   | 58%N :: _ => case_name (p_case c) name
-  | _ => if need_pipes name then [124%N] ++ case_name (p_case c) name ++ [124%N] else case_name (p_case c) name
+  | _ => if need_pipes name then [124%N] ++ pesc (case_name (p_case c) name) ++ [124%N] else case_name (p_case c) name
   end.
 
 (* ------------------------------------------------------------------------------------------ *)
